@@ -184,9 +184,11 @@ def judge_ideal(inp, obs, lr):
         return {"expected": "model answer", "observed": lr[0], "tags": {"driver_err": lr[0]["err"]}}
     mv = Q.decf(lr[0]["ok"])
     iv = np.array(obs["ideal"])
-    for a, b in zip(iv, mv):
-        if not G.proj_equal(a, b, 1e-8):
-            return {"expected": {"ideal": mv.tolist()}, "observed": iv.tolist(), "tags": {"scaled": inp["scaled"]}}
+    # the two ideal endpoints as projective points, in either order: neither the scale of the rows nor which row comes
+    # first is part of the public contract (on the pinned tree the order follows the relative sheet of the two stored
+    # representatives: replacing one of them by its negative swaps the rows)
+    if not (all(G.proj_equal(a, b, 1e-8) for a, b in zip(iv, mv)) or all(G.proj_equal(a, b, 1e-8) for a, b in zip(iv, mv[::-1]))):
+        return {"expected": {"ideal (as an unordered pair of projective points)": mv.tolist()}, "observed": iv.tolist(), "tags": {"scaled": inp["scaled"]}}
     x1, x2 = G.fv(inp["x1"]), G.fv(inp["x2"])
     for a in iv:
         if abs(G.mink(a, a)) > 1e-9 * np.dot(a, a):
@@ -413,6 +415,10 @@ def judge_arc(inp, obs, lr):
 
 # ================================================================== oracles
 def _d(a, b):
+    """d(a, b), measured on copies: the measurement must not touch the objects under test (Point.distance may or may
+    not rescale the stored coordinates of its arguments; nothing promises either)"""
+    a = H.Point(np.array(a.proj_data, dtype=float).copy())
+    b = H.Point(np.array(b.proj_data, dtype=float).copy())
     return float(np.asarray(a.distance(b)).reshape(-1)[0])
 
 
@@ -1254,6 +1260,16 @@ def run_o_intdata(inp):
             xa = np.array(x)
             return H.Segment(H.Point(xa[..., 0, :]), H.Point(xa[..., 1, :]))
         return {"segment": H.Segment, "geodesic": H.Geodesic, "horosphere": H.Horosphere}[kind](x)
+    # representatives whose difference is lightlike (a = <p1 - p2, p1 - p2> = 0, which integral coordinates hit exactly) are
+    # the subject of finding C12-segment-a-zero, not of this clause: the pinned formula divides by a
+    if kind in ("segment", "polygon"):
+        for u in inp["units"][:max(cnt, 1)]:
+            rows = [[int(x) for x in r] for r in u]
+            pairs = list(zip(rows, rows[1:] + rows[:1])) if kind == "polygon" else [(rows[0], rows[1])]
+            for r0, r1 in pairs:
+                df = [x - y for x, y in zip(r0, r1)]
+                if -df[0] * df[0] + sum(x * x for x in df[1:]) == 0:
+                    return {"skip": True}
     # the float64 object is the reference; degenerate positions that integral coordinates hit exactly (a geodesic through
     # the origin of the Poincare ball, an ideal endpoint at the half-space point at infinity) are not the subject here
     try:
